@@ -253,6 +253,9 @@ func (p *prog) experiment(op *opSpec) {
 		}
 	}
 	evid.Count("m|" + key + "|" + outcome)
+	if os.Getenv("C15_TRACE") != "" {
+		fmt.Fprintf(os.Stderr, "TRACE h=%d %s %s %s args=%s gas=%s pay=%s smart=%v -> %s %v\n", p.A.Head().Height(), op.kind, op.op, op.method, op.argClass, gasClass, pc, op.smart, outcome, rec.Error)
+	}
 	if dry.isWasm {
 		if n := decodeActionResult(rec.ActionResult); n != nil {
 			subs, okSubs := 0, 0
@@ -320,21 +323,31 @@ func runProgram(t *rapid.T, profile string) {
 		t.Fatalf("HARNESS: god cannot propose")
 	}
 	p := &prog{t: t, w: w, A: A, profile: profile, senders: w.Actors[1:params.NActors]}
-	focuses := []string{"mix", "voting", "wallets", "mix", "voting"}
+	focuses := []string{"mix", "voting", "wallets", "voting", "voting"}
 	if profile == "v12" {
-		focuses = append(focuses, "wasm", "wasm")
+		focuses = append(focuses, "wasm", "wasm", "mix")
 	}
 	p.focus = focuses[rapid.IntRange(0, len(focuses)-1).Draw(t, "focus")]
-	evid.Count("case.profile." + profile + ".focus." + p.focus)
+	p.calm = rapid.IntRange(0, 9).Draw(t, "calm") < 4
+	evid.Count(fmt.Sprintf("case.profile.%s.focus.%s.calm=%v", profile, p.focus, p.calm))
+	if os.Getenv("C15_TRACE") != "" {
+		fmt.Fprintf(os.Stderr, "TRACE ==== case profile=%s focus=%s calm=%v actors=%d\n", profile, p.focus, p.calm, params.NActors)
+	}
 	// the genesis state has gas price 0 (no gas can be bought, every execution fails); mostly start after one block
 	if rapid.IntRange(0, 9).Draw(t, "startAtZeroGasPrice") != 9 {
 		w.Advance(15 * time.Second)
 		p.plainBlocks(1)
 	}
 	steps := rapid.IntRange(20, 45).Draw(t, "steps")
+	if p.focus == "voting" {
+		steps += 15 // a voting needs ~15 steps from deployment to finishVoting, its locks a few more
+	}
 	for i := 0; i < steps; i++ {
 		w.Advance(time.Duration(rapid.IntRange(10, 40).Draw(t, "dt")) * time.Second)
 		op := p.next()
+		if os.Getenv("C15_TRACE") != "" && op.special != "" {
+			fmt.Fprintf(os.Stderr, "TRACE h=%d special %s n=%d dur=%v\n", p.A.Head().Height(), op.special, op.n, op.dur)
+		}
 		switch op.special {
 		case "blocks":
 			n := op.n
